@@ -4,6 +4,7 @@ import (
 	"errors"
 	"fmt"
 	"os"
+	"regexp"
 	"sort"
 	"strconv"
 	"strings"
@@ -216,7 +217,7 @@ func (w *ksWorld) observe(c fiber.Ctx, id int, final bool) map[string]string {
 			ks = append(ks, strings.Clone(k)+"="+strings.Clone(strings.Join(v, "|")))
 		}
 		sort.Strings(ks)
-		m["RespHeaders@entry"] = strings.Join(ks, ";")
+		m["RespHeaders@entry"] = flashExpiresRe.ReplaceAllString(strings.Join(ks, ";"), "expires=T")
 	}
 	return m
 }
@@ -400,6 +401,8 @@ func (w *ksWorld) build(cfg fiber.Config) *fiber.App {
 	return app
 }
 
+var flashExpiresRe = regexp.MustCompile(`expires=[^;\n]*`)
+
 func (w *ksWorld) serve(app *fiber.App, conn *harness.Conn, r *ksReq, o *ksObs) string {
 	var res string
 	func() {
@@ -415,7 +418,8 @@ func (w *ksWorld) serve(app *fiber.App, conn *harness.Conn, r *ksReq, o *ksObs) 
 		// cookie is not a function of the request, only their multiset is
 		if i := strings.Index(hs, "Set-Cookie: fiber_flash="); i >= 0 {
 			j := i + strings.IndexByte(hs[i:], '\n')
-			b := []byte(hs[i:j])
+			// the expiry date of the consumed flash cookie is "now minus a day": a function of the clock
+			b := []byte(flashExpiresRe.ReplaceAllString(hs[i:j], "expires=T"))
 			sort.Slice(b, func(x, y int) bool { return b[x] < b[y] })
 			hs = hs[:i] + "Set-Cookie(fiber_flash, bytes sorted): " + string(b) + hs[j:]
 		}
@@ -613,7 +617,18 @@ func ksRun(s *simrt.Sim, info *harness.RunInfo, immutMode bool) {
 	}
 	nconn := s.Range(1, harness.Scale(4, 6))
 	preempt := simrt.PickS(s, 150, 0, 50, 400)
-	cfgLine := fmt.Sprintf("immutMode=%v immutable=%v caseSensitive=%v strict=%v unescape=%v proxyHeader=%q ipValidation=%v conns=%d preempt=%d", immutMode, cfg.Immutable, cfg.CaseSensitive, cfg.StrictRouting, cfg.UnescapePath, cfg.ProxyHeader, cfg.EnableIPValidation, nconn, preempt)
+	// transport: direct handler calls on a recycled RequestCtx, or fasthttp's real connection loop
+	// over a simulated connection (then also with streamed request bodies / eager buffer release)
+	netw := harness.ChooseTransport(s, 350)
+	if netw.Enabled {
+		cfg.StreamRequestBody = s.Chance(400)
+		cfg.ReduceMemoryUsage = s.Chance(250)
+		s.Count("probe_real_connection_loop")
+		if cfg.StreamRequestBody {
+			s.Count("probe_streamed_request_bodies")
+		}
+	}
+	cfgLine := fmt.Sprintf("immutMode=%v immutable=%v caseSensitive=%v strict=%v unescape=%v proxyHeader=%q ipValidation=%v conns=%d preempt=%d net=%+v stream=%v reducemem=%v", immutMode, cfg.Immutable, cfg.CaseSensitive, cfg.StrictRouting, cfg.UnescapePath, cfg.ProxyHeader, cfg.EnableIPValidation, nconn, preempt, netw, cfg.StreamRequestBody, cfg.ReduceMemoryUsage)
 	s.Logf("cfg %s", cfgLine)
 
 	ksFiles()
@@ -645,7 +660,9 @@ func ksRun(s *simrt.Sim, info *harness.RunInfo, immutMode bool) {
 				return r.ref
 			}
 			app := w.build(cfg)
-			r.refRes = w.serve(app, harness.NewConn(app, "10.0.0."+strconv.Itoa(r.conn+1)), r, r.ref)
+			rc := harness.NewConn(app, "10.0.0."+strconv.Itoa(r.conn+1))
+			r.refRes = w.serve(app, rc, r, r.ref)
+			rc.Close()
 		}
 	}
 	// 2. the history, concurrently, on one application
